@@ -107,7 +107,10 @@ def fileSize (headerLen nonceLen blockSize overhead clen : Nat) : Nat :=
 
 /-! ### `Get` -/
 
-/-- The reader goroutine: open piece after piece, stop at the first one that does not open. -/
+/-- The reader goroutine: open piece after piece, stop at the first one that does not open.
+    That piece ends the stream with an error (`.fail` = `writer.CloseWithError(decrypt error)`),
+    not with a plain end of file: regenerated from the source as `Facts.Store.openFailureFailsPipe`
+    (theorem `C09.open_failure_is_pipe_error`). -/
 def openPrefix (f : Bytes → Option Bytes) : List Bytes → List Bytes × Term
   | [] => ([], .eof)
   | c :: cs =>
